@@ -23,8 +23,8 @@ def c01(tier):
     else:
         for t in TOPOS_THOROUGH:
             # 12,12,8 = 32 threads on 16 cores: every case is several times slower
-            runs.append(H("c01_foreach", "plain", 600 if t == "12,12,8" else 2000, t, timeout_per_case=10))
-            runs.append(H("c01_foreach", "asan", 300, t, timeout_per_case=40, params=dict(maxitems=8000)))
+            runs.append(H("c01_foreach", "plain", 300 if t == "12,12,8" else 1200, t, timeout_per_case=10))
+            runs.append(H("c01_foreach", "asan", 200, t, timeout_per_case=40, params=dict(maxitems=8000)))
         for cpus in (2, 4):
             runs.append(H("c01_foreach", "plain", 600, "12,12,8", cpus=cpus, timeout_per_case=30,
                           params=dict(oversub=1, maxitems=1500)))
@@ -33,7 +33,7 @@ def c01(tier):
         for t in (None, "4,4,4,4", "3,5"):
             runs.append(H("c01_foreach", "plain", 250, t, timeout_per_case=20, params=dict(wl="OBIM_barrier", maxitems=1500)))
         for t in TOPOS_THOROUGH:
-            runs.append(H("c01_direct", "plain", 1500, t, timeout_per_case=10))
+            runs.append(H("c01_direct", "plain", 1000, t, timeout_per_case=10))
         for cpus in (2, 4):
             runs.append(H("c01_direct", "plain", 1000, "12,12,8", cpus=cpus, timeout_per_case=20, params=dict(oversub=1)))
         runs.append(H("c01_direct", "tsan", 800, "4,4,4,4", timeout_per_case=60))
